@@ -8,7 +8,8 @@ import sys
 
 VERIF = os.path.dirname(os.path.dirname(os.path.abspath(__file__)))
 # seeds whose violation does not show on the committed model / package: the check that owns the manifestation is run as well
-ALT = {"C07-2": ["C06"], "C08-2": ["C06"], "C07-r2-2": ["C06"], "C08-r4-2": ["C16"], "C20-r4-2": ["C05"], "C06-r6-2": ["C16"], "C07-r6-2": ["C16"], "C17-r6-2": ["C16"]}
+ALT = {"C07-2": ["C06"], "C08-2": ["C06"], "C07-r2-2": ["C06"], "C08-r4-2": ["C16"], "C20-r4-2": ["C05"], "C06-r6-2": ["C16"], "C07-r6-2": ["C16"], "C17-r6-2": ["C16"],
+       "C04-r7-1": ["C16"], "C08-r7-1": ["C16"], "C17-r7-2": ["C16"], "C13-r7-1": ["C06"]}
 
 
 def rnd(name):
@@ -84,9 +85,9 @@ def main():
     if bad:
         out += ["Anomalies:"] + ["* " + b for b in bad] + [""]
     notes = os.path.join(VERIF, "seeded", "NOTES.md")
-    if os.path.exists(notes):
+    if os.path.exists(notes) and not os.environ.get("SEED_RESULTS_FILE"):
         out += [open(notes).read()]
-    open(os.path.join(VERIF, "seeded", "RESULTS.md"), "w").write("\n".join(out) + "\n")
+    open(os.path.join(VERIF, "seeded", os.environ.get("SEED_RESULTS_FILE", "RESULTS.md")), "w").write("\n".join(out) + "\n")
     print("\n".join(out[-12:]))
 
 
